@@ -6,7 +6,7 @@
   (Rtp/Pred/C17.lean), for ALL values / receivers / byte strings (no enumeration, no size bound):
     c17_X_marshal    ∀ v prev,          marshalOk XSpec v (modelM X v prev)
         in-range v: Marshal = the specification's bit layout, and Unmarshal of it into any receiver
-        `prev` returns v;  out-of-range v: Marshal returns an error
+        `prev` returns v;  out-of-range AudioLevel / PlayoutDelay: Marshal returns an error
     c17_X_unmarshal  ∀ prev hist raw,   unmarshalOk XSpec raw (modelU X prev hist raw)
         |raw| ≥ size: ok, fields = the specified fields of the first `size` bytes (a function of `raw`
         alone: neither `prev` nor the earlier inputs `hist` occur in it); shorter: error; never panic
@@ -117,7 +117,7 @@ theorem c17_audio_spelled :
   have V := c17_audio_verified
   refine ⟨?_, ?_, ?_, ?_, ?_, ?_⟩
   · intro l v h; exact V.layout ⟨l, v⟩ (by simpa [audioSpec] using h)
-  · intro l v h; exact V.rejects_range ⟨l, v⟩ (by simpa [audioSpec] using h)
+  · intro l v h; exact V.rejects_range ⟨l, v⟩ (by simpa [audioSpec] using h) (by simpa [audioSpec] using h)
   · intro r r' raw h
     cases hd : audioSpec.decode raw with
     | none => exact absurd ((audio_decode_none raw).mp hd) (by omega)
@@ -130,7 +130,7 @@ theorem c17_audio_spelled :
     match raw, h with
     | [], _ => simp [audioUnmarshal, Res.isErr]
   · intro r raw; exact V.unmarshal_total r raw
-  · intro l v r h; exact V.roundtrip ⟨l, v⟩ r (by simpa [audioSpec] using h) (by simpa [audioSpec] using h)
+  · intro l v r h; exact V.roundtrip ⟨l, v⟩ r (by simpa [audioSpec] using h)
 
 theorem c17_tcc_spelled :
     (∀ s, tccMarshal ⟨s⟩ = .ok (render [(16, s.toNat)])) ∧
@@ -155,7 +155,7 @@ theorem c17_tcc_spelled :
     | [], _ => simp [tccUnmarshal, Res.isErr]
     | [_], _ => simp [tccUnmarshal, Res.isErr]
   · intro r raw; exact V.unmarshal_total r raw
-  · intro s r; exact V.roundtrip ⟨s⟩ r rfl rfl
+  · intro s r; exact V.roundtrip ⟨s⟩ r rfl
 
 theorem c17_playout_spelled :
     (∀ a b, a ≤ 4095 → b ≤ 4095 → playoutMarshal ⟨a, b⟩ = .ok (render [(12, a.toNat), (12, b.toNat)])) ∧
@@ -170,10 +170,9 @@ theorem c17_playout_spelled :
   refine ⟨?_, ?_, ?_, ?_, ?_, ?_⟩
   · intro a b h1 h2; exact V.layout ⟨a, b⟩ (by simp [playoutSpec, h1, h2])
   · intro a b h
-    apply V.rejects_range ⟨a, b⟩
     rcases h with h | h
-    · simp [playoutSpec, UInt16.not_le.mpr h]
-    · simp [playoutSpec, UInt16.not_le.mpr h]
+    · exact V.rejects_range ⟨a, b⟩ (by simp [playoutSpec, UInt16.not_le.mpr h]) (by simp [playoutSpec, h])
+    · exact V.rejects_range ⟨a, b⟩ (by simp [playoutSpec, UInt16.not_le.mpr h]) (by simp [playoutSpec, h])
   · intro r r' raw h
     cases hd : playoutSpec.decode raw with
     | none => exact absurd ((playout_decode_none raw).mp hd) (by omega)
@@ -189,7 +188,7 @@ theorem c17_playout_spelled :
     | [_, _], _ => simp [playoutUnmarshal, Res.isErr]
   · intro r raw; exact V.unmarshal_total r raw
   · intro a b r h1 h2
-    exact V.roundtrip ⟨a, b⟩ r (by simp [playoutSpec, h1, h2]) (by simp [playoutSpec, h1, h2])
+    exact V.roundtrip ⟨a, b⟩ r (by simp [playoutSpec, h1, h2])
 
 theorem c17_abssend_spelled :
     (∀ t, absSendMarshal ⟨t⟩ = .ok (render [(24, t.toNat % 2 ^ 24)])) ∧
@@ -200,7 +199,7 @@ theorem c17_abssend_spelled :
     (∀ t r, t < 16777216 → absSendUnmarshal r (render [(24, t.toNat % 2 ^ 24)]) = ⟨.ok (), ⟨t⟩⟩) := by
   have V := c17_abssend_verified
   refine ⟨?_, ?_, ?_, ?_, ?_⟩
-  · intro t; exact V.layout ⟨t⟩ rfl
+  · intro t; exact absSend_marshal_layout t
   · intro r r' raw h
     cases hd : absSendSpec.decode raw with
     | none => exact absurd ((absSend_decode_none raw).mp hd) (by omega)
@@ -215,7 +214,7 @@ theorem c17_abssend_spelled :
     | [_], _ => simp [absSendUnmarshal, Res.isErr]
     | [_, _], _ => simp [absSendUnmarshal, Res.isErr]
   · intro r raw; exact V.unmarshal_total r raw
-  · intro t r h; exact V.roundtrip ⟨t⟩ r rfl (by simpa [absSendSpec] using h)
+  · intro t r h; exact V.roundtrip ⟨t⟩ r (by simpa [absSendSpec] using h)
 
 theorem c17_abscapture_spelled :
     (∀ t, absCaptureMarshal ⟨t, none⟩ = .ok (render [(64, t.toNat)])) ∧
@@ -269,7 +268,7 @@ theorem c17_abscapture_spelled :
     | [_, _, _, _, _, _], _ => simp [absCaptureUnmarshal, Res.isErr]
     | [_, _, _, _, _, _, _], _ => simp [absCaptureUnmarshal, Res.isErr]
   · intro r raw; exact V.unmarshal_total r raw
-  · intro v r; exact V.roundtrip v r rfl rfl
+  · intro v r; exact V.roundtrip v r rfl
 
 /-- neither Marshal nor Unmarshal of any of the five codecs can panic -/
 theorem c17_total :
@@ -278,11 +277,21 @@ theorem c17_total :
     (∀ v, playoutMarshal v ≠ .panic) ∧ (∀ r raw, (playoutUnmarshal r raw).res ≠ .panic) ∧
     (∀ v, absSendMarshal v ≠ .panic) ∧ (∀ r raw, (absSendUnmarshal r raw).res ≠ .panic) ∧
     (∀ v, absCaptureMarshal v ≠ .panic) ∧ (∀ r raw, (absCaptureUnmarshal r raw).res ≠ .panic) :=
-  ⟨c17_audio_verified.marshal_total, c17_audio_verified.unmarshal_total,
-   c17_tcc_verified.marshal_total, c17_tcc_verified.unmarshal_total,
-   c17_playout_verified.marshal_total, c17_playout_verified.unmarshal_total,
-   c17_abssend_verified.marshal_total, c17_abssend_verified.unmarshal_total,
-   c17_abscapture_verified.marshal_total, c17_abscapture_verified.unmarshal_total⟩
+  ⟨fun v => c17_audio_verified.marshal_total v (by
+      cases h : audioSpec.inRange v
+      · right; simpa [audioSpec] using h
+      · left; rfl),
+   c17_audio_verified.unmarshal_total,
+   fun v => c17_tcc_verified.marshal_total v (Or.inl rfl), c17_tcc_verified.unmarshal_total,
+   fun v => c17_playout_verified.marshal_total v (by
+      cases h : playoutSpec.inRange v
+      · right
+        simp only [playoutSpec, Bool.and_eq_false_iff, decide_eq_false_iff_not, UInt16.not_le] at h
+        simpa [playoutSpec] using h
+      · left; rfl),
+   c17_playout_verified.unmarshal_total,
+   fun v => by rw [absSend_marshal_layout v.ts]; simp, c17_abssend_verified.unmarshal_total,
+   fun v => c17_abscapture_verified.marshal_total v (Or.inl rfl), c17_abscapture_verified.unmarshal_total⟩
 
 /-! ### the specification is consistent with itself
 
@@ -299,11 +308,11 @@ theorem c17_spec_roundtrip :
     (∀ v, audioSpec.inRange v = true → audioSpec.decode (render (audioSpec.layout v)) = some v) ∧
     (∀ v, tccSpec.decode (render (tccSpec.layout v)) = some v) ∧
     (∀ v, playoutSpec.inRange v = true → playoutSpec.decode (render (playoutSpec.layout v)) = some v) ∧
-    (∀ v, absSendSpec.exact v = true → absSendSpec.decode (render (absSendSpec.layout v)) = some v) ∧
+    (∀ v, absSendSpec.inRange v = true → absSendSpec.decode (render (absSendSpec.layout v)) = some v) ∧
     (∀ v, absCaptureSpec.decode (render (absCaptureSpec.layout v)) = some v) :=
-  ⟨fun v h => c17_audio_verified.spec_roundtrip v h h, fun v => c17_tcc_verified.spec_roundtrip v rfl rfl,
-   fun v h => c17_playout_verified.spec_roundtrip v h h, fun v h => c17_abssend_verified.spec_roundtrip v rfl h,
-   fun v => c17_abscapture_verified.spec_roundtrip v rfl rfl⟩
+  ⟨fun v h => c17_audio_verified.spec_roundtrip v h, fun v => c17_tcc_verified.spec_roundtrip v rfl,
+   fun v h => c17_playout_verified.spec_roundtrip v h, fun v h => c17_abssend_verified.spec_roundtrip v h,
+   fun v => c17_abscapture_verified.spec_roundtrip v rfl⟩
 
 example : parse [12, 12] (render [(12, 0xABC), (12, 0x123)] ++ [0xEE]) = [0xABC, 0x123] := by decide
 
